@@ -77,6 +77,22 @@ def emissionK (k : PC α) (nonmol : List (Kind × List α)) (sigma3 : List (List
     let layerCalc := exp ((-layerTau) * m) * transKmu kLayer ws m
     i + (planck k nu (temps.getD l 0) / k.pi) * (layerCalc - dtauCalc)) i0
 
+/-- `evaluate_emission_ktables` when the contribution list holds NO molecular absorption (`molecule_absorption is None`:
+    a model built from scattering / haze / CIA contributions only, and every non-molecular entry of `model_contrib()`, which
+    evaluates the contributions one at a time): every `if molecule_absorption is not None:` block is skipped; what is left is
+    the plain intensity recursion over the contributions `nonmol` -- the surface column, and per layer
+    `layer_tau` (everything above), `dtau` (the layer itself) `+= layer_tau`.  No clamp enters the intensity. -/
+def emissionKNoMol (k : PC α) (nonmol : List (Kind × List α)) (dz dens temps : List α) (nu m : α) : α :=
+  let n := temps.length
+  let surface := tauRange nonmol dz dens 0 n * m
+  let i0 := (planck k nu (temps.getD 0 0) / k.pi) * exp (-surface)
+  (List.range n).foldl (fun i l =>
+    let layerTau := tauRange nonmol dz dens (l + 1) n
+    let dtau := tauRange nonmol dz dens l (l + 1) + layerTau
+    let dtauCalc := exp ((-dtau) * m)
+    let layerCalc := exp ((-layerTau) * m)
+    i + (planck k nu (temps.getD l 0) / k.pi) * (layerCalc - dtauCalc)) i0
+
 end
 
 end Taurex.KTau
